@@ -82,10 +82,12 @@ func VerifC15_CloseRaces() {
 	serr := <-syncDone
 	n := <-lisDone
 	verif_Assert(n <= 2, "a listener gets each notification at most once")
-	// an explicit sync is either refused at the door (Close had begun: nothing was
-	// asked of the publisher) or, once running, allowed to finish
+	// an explicit sync is either refused at the door (Close had begun: it asked
+	// nothing of the publisher) or, once running, allowed to finish
 	if serr != nil {
-		verif_Assert(v.sy.headQueries == 0 && len(v.sy.reqs) == 0, "an explicit sync that was running when Close began is allowed to finish")
+		// (only the explicit sync queries the head; block requests may also come from the
+		// announce-triggered sync of the same publisher)
+		verif_Assert(v.sy.headQueries == 0, "an explicit sync that was running when Close began is allowed to finish")
 	}
 
 	// afterwards: every entry point returns promptly (a call that cannot return is reported as a hang)
